@@ -4,7 +4,7 @@
 export GOFLAGS=-mod=mod GOPROXY=off GOSUMDB=off GOTOOLCHAIN=local
 D=$(readlink -f "$1"); PKG=$2; shift 2
 WT=$(mktemp -d /tmp/confirm-XXXXXX); rmdir "$WT"
-git -C /repo worktree add -q --detach "$WT" seedbase || exit 2
+git -C /repo worktree add -q --detach "$WT" HEAD || exit 2
 trap 'git -C /repo worktree remove --force "$WT"' EXIT
 cd "$WT"
 cp "$D/zz_seeded_demo_test.go" "$PKG/"
